@@ -46,6 +46,9 @@ pub enum ModelParseError {
     #[error("USE_GV is true, but positions for GV is not set")]
     UseGvError,
 
+    #[error("A tree refers to an undefined question or node")]
+    MalformedTree,
+
     #[error("Failed to parse question: {0}")]
     QuestionParseError(#[from] jlabel_question::ParseError),
 }
